@@ -33,7 +33,7 @@ EXPLANATION = (
     "variable, a counter running down from len(.)-1 under >= 0, or a guard comparing the index with a length). C16.h: constant propagation "
     "of the step for water_table in {0,1}: no cell of the daily tables receives the constant None (stored as NaN). C16.i: month and day of "
     "a real date are completed to a date only with a leap mock year (own positive example). C16.j: the profile-deepening while loop makes "
-    "progress on every iteration (every path from the body's entry back to the test stores into the thickness column). C16.k: prepare_weather floors the ReferenceET column of the frame it returns at a positive value on every path (biomass accumulation divides by it), and no inplace=True method is applied to a selection of a frame anywhere (no effect under copy-on-write; own positive example). C16.l: the curve-number runoff quotient, whose denominator is the rain itself when the retention is 0 (curve number 100), is evaluated only under a strict comparison of the rain with the initial abstraction. C16.m (no step beyond the window; abstract interpretation over 8 clock states, shared with C07.b): whenever the step just taken ends on or after the end date the termination test returns True - otherwise update_time reads one past the last entry of time_span and the run raises IndexError on the last day of a window that cuts a season. C16.n (T-LOOP, shared with C07.m): every while loop of the package has a visible reason to stop - a local compared with a loop-invariant bound and stepped towards it on every cycle (must-pass-through on the CFG), a countdown, a flag set from a counter test, a value recomputed from a stepped counter (listed, with the monotonicity reason), a delegated progress argument (the model's outer loop: C07.b; the profile deepening loop), or a listed convergence search that is preceded on every path by a guard raising when a parameter its convergence needs is <= 0. C16.o (the top soil keeps a compartment): every thickness store of the deepening loop concerns a compartment below the top soil (guarded by dzsum > z_top) or is followed on every path by z_top = max(z_top, first thickness) - otherwise a one-compartment profile has no compartment ending within z_top and root_zone_water's assertion fails. C16.p (a rule the code follows at every instance): a division whose divisor is exactly a field of the crop state (ccx_w, ccx_w_ns, ccx_early_sen - 0 at a season's start and once the canopy is gone) is control dependent on a test of that very field. NOT decided: numeric assert "
+    "progress on every iteration (every path from the body's entry back to the test stores into the thickness column). C16.k: prepare_weather floors the ReferenceET column of the frame it returns at a positive value on every path (biomass accumulation divides by it), and no inplace=True method is applied to a selection of a frame anywhere (no effect under copy-on-write; own positive example). C16.l: the curve-number runoff quotient, whose denominator is the rain itself when the retention is 0 (curve number 100), is evaluated only under a strict comparison of the rain with the initial abstraction. C16.m (no step beyond the window; abstract interpretation over 8 clock states, shared with C07.b): whenever the step just taken ends on or after the end date the termination test returns True - otherwise update_time reads one past the last entry of time_span and the run raises IndexError on the last day of a window that cuts a season. C16.n (T-LOOP, shared with C07.m): every while loop of the package has a visible reason to stop - a local compared with a loop-invariant bound and stepped towards it on every cycle (must-pass-through on the CFG), a countdown, a flag set from a counter test, a value recomputed from a stepped counter (listed, with the monotonicity reason), a delegated progress argument (the model's outer loop: C07.b; the profile deepening loop), or a listed convergence search that is preceded on every path by a guard raising when a parameter its convergence needs is <= 0. C16.o (the top soil keeps a compartment): every thickness store of the deepening loop concerns a compartment below the top soil (guarded by dzsum > z_top) or is followed on every path by z_top = max(z_top, first thickness) - otherwise a one-compartment profile has no compartment ending within z_top and root_zone_water's assertion fails. C16.p (a rule the code follows at every instance): a division whose divisor is exactly a field of the crop state (ccx_w, ccx_w_ns, ccx_early_sen - 0 at a season's start and once the canopy is gone) is control dependent on a test of that very field. C16.q (NaN-safe case split): where a local is the plain quotient of two formals whose divisor is tested nowhere (biomass / potential biomass, 0/0 before any transpiration), every assignment of a result that reads the quotient or a local derived from it is directly control dependent on the True edge of a comparison on it - comparisons with NaN are False, so the fall-through must be the neutral value. NOT decided: numeric assert "
     "failures, non-finite results from run-time values, pandas-internal errors.")
 
 L = frozenset
@@ -805,6 +805,94 @@ def state_field_divisors(chk, prog):
     chk.floor("C16.p", n, 3, "divisions by a field of the crop state below the daily step")
 
 
+_NAN_EXAMPLE = """
+def f(B, B_NS, d):
+    Br = B / B_NS
+    r = (Br - 0.5) / 0.5
+    if (Br < 0.2) or (Br > 1):
+        F = 1
+    elif Br < 0.5:
+        F = 1 + r * d
+    else:
+        F = 1 + (1 - r) * d
+    return F
+"""
+
+
+def _nan_unsafe_results(fi):
+    """[(quotient Assign, offending Assign)] and the number of candidate quotients of function-like object fi (node, params)"""
+    from ..rdef import FuncFlow
+    flow = FuncFlow(fi)
+    cfg = flow.cfg
+    out, n = [], 0
+    for q in walk_no_nested(fi.node):
+        if not (isinstance(q, ast.Assign) and len(q.targets) == 1 and isinstance(q.targets[0], ast.Name) and isinstance(q.value, ast.BinOp)
+                and isinstance(q.value.op, ast.Div) and isinstance(q.value.left, ast.Name) and isinstance(q.value.right, ast.Name)
+                and q.value.left.id in fi.params and q.value.right.id in fi.params):
+            continue
+        b = q.value.right.id
+        if any(t.kind == "test" and any(isinstance(x, ast.Name) and x.id == b for x in ast.walk(t.ast)) for t in cfg.live_nodes()):
+            continue                                   # the divisor is tested: not this rule's subject
+        n += 1
+        tainted = {q.targets[0].id}
+        changed = True
+        while changed:
+            changed = False
+            for a in walk_no_nested(fi.node):
+                if isinstance(a, ast.Assign) and len(a.targets) == 1 and isinstance(a.targets[0], ast.Name) and a.targets[0].id not in tainted \
+                        and any(isinstance(x, ast.Name) and x.id in tainted for x in ast.walk(a.value)):
+                    tainted.add(a.targets[0].id)
+                    changed = True
+        returned = {x.id for r in walk_no_nested(fi.node) if isinstance(r, ast.Return) and r.value is not None for x in ast.walk(r.value) if isinstance(x, ast.Name)}
+        results = tainted & returned
+        for a in walk_no_nested(fi.node):
+            if not (isinstance(a, ast.Assign) and len(a.targets) == 1):
+                continue
+            t = a.targets[0]
+            is_result = (isinstance(t, ast.Name) and t.id in results) or isinstance(t, (ast.Attribute, ast.Subscript))
+            if not is_result or not any(isinstance(x, ast.Name) and x.id in tainted for x in ast.walk(a.value)):
+                continue
+            nid = flow.stmt_node.get(id(a))
+            if nid is None:
+                continue
+            guarded = any(cfg.nodes[tn].kind == "test" and lab is True and isinstance(cfg.nodes[tn].ast, ast.Compare)
+                          and any(isinstance(x, ast.Name) and x.id in tainted for x in ast.walk(cfg.nodes[tn].ast))
+                          for tn, lab in cfg.control_deps().get(nid, ()))
+            out.append((q, a, guarded))
+    return out, n
+
+
+def nan_safe_quotients(chk, prog):
+    """C16.q (every reported number is finite - NaN-safe case splits): a local defined as the plain quotient of two formals whose divisor is
+    tested nowhere in the function can be 0/0 = NaN (potential and actual biomass are both 0 until the crop has transpired). Comparisons with
+    NaN are False, so the function's results stay finite exactly when every assignment of a returned name (or of an attribute) whose value
+    reads the quotient - directly or through locals derived from it - is control dependent on the TRUE edge of a comparison that reads the
+    quotient or a derived local; the value of the fall-through branch must not read it. A re-ordered if / elif chain whose formula ends up in
+    the `else` arm lets the NaN through. The candidates vanish when the divisor gets a test of its own, so the expected count is not fixed:
+    the matcher is run on an embedded positive example first."""
+    from types import SimpleNamespace
+    exn = ast.parse(_NAN_EXAMPLE).body[0]
+    ex, exc = _nan_unsafe_results(SimpleNamespace(node=exn, params=[a.arg for a in exn.args.args]))
+    if exc != 1 or sorted(g for _, _, g in ex) != [False, True]:
+        raise AnalysisError(f"C16.q: the matcher no longer recognises its positive example ({exc}, {[g for _, _, g in ex]})")
+    n = 0
+    for key in sorted(prog.funcs):
+        fi = prog.funcs[key]
+        res, cand = _nan_unsafe_results(fi)
+        n += cand
+        where = f"{fi.module}:{fi.qualname}"
+        for q, a, guarded in res:
+            chk.fn(key)
+            construct = f"{norm(a)[:80]}  [quotient {norm(q)}]"
+            if guarded:
+                chk.ok("C16.q", where, construct, "reads the quotient only under the True edge of a comparison on it (False for NaN)")
+            else:
+                chk.violation("C16.q", where, construct, f"`{norm(q)}` is 0/0 = NaN while both quantities are 0 and `{q.value.right.id}` is tested nowhere; this assignment "
+                              "reads it on a branch that is not entered through the True edge of a comparison on it (every comparison with NaN is False, so the NaN "
+                              "reaches the result): non-finite yields", loc=fi.loc(a))
+    chk.ok("C16.q", "aquacrop", f"{n} quotient(s) of two formals with an untested divisor", "matcher exercised on the embedded example (one unsafe, one safe assignment)")
+
+
 def run(chk, prog, tier):
     from ._siblings import yield_clock_agreement
     chk.parallel(prog, [rule_a, attribute_definedness, lambda c, p: table_divisors(c, p, "C16.c"), first_element_sites,
@@ -815,6 +903,7 @@ def run(chk, prog, tier):
     et0_floor(chk, prog)
     runoff_quotient(chk, prog)
     state_field_divisors(chk, prog)
+    nan_safe_quotients(chk, prog)
     from .c07 import finished_at_window_end
     finished_at_window_end(chk, prog, "C16.m")
     from ._loops import loop_variants
